@@ -370,8 +370,27 @@ func c03Propagate(c *kit.Ctx, m *storeModel, hm *hashModel, r3, r6 *kit.Rule) {
 				ownByID = true
 			}
 		}
+		// the roles are judged in the function that contains the propagation call (the
+		// writer itself, or its body function with the body's own parameters)
+		pf := f
+		if w.Body != f {
+			for _, call := range w.Body.AllCalls(true) {
+				if call == propCall {
+					pf = w.Body
+				}
+			}
+		}
+		pids := w.IDs
+		if pf != f {
+			pids = nil
+			for _, p := range pf.Params() {
+				if b, ok := p.Type().Underlying().(*types.Basic); ok && b.Kind() == types.String {
+					pids = append(pids, p)
+				}
+			}
+		}
 		if w.Table == "node_points" {
-			if len(w.IDs) == 1 && kit.ObjOf(info, startArg) == w.IDs[0] && !ownByID {
+			if len(pids) == 1 && kit.ObjOf(info, startArg) == types.Object(pids[0]) && !ownByID {
 				o6.OK("walk starts at the node id parameter")
 			} else {
 				o6.Violation("the node-point delta is propagated starting at `%s` (own-edge update by id: %v), expected the written node id", f.Str(startArg), ownByID)
@@ -381,18 +400,18 @@ func c03Propagate(c *kit.Ctx, m *storeModel, hm *hashModel, r3, r6 *kit.Rule) {
 		// edge writer: which parameter is the parent
 		var parent, node *types.Var
 		for _, s := range m.sql.Sites {
-			if s.F.Root() != f || !s.HasVerb("INSERT", "edges") || len(s.Stmts) == 0 {
+			if s.F.Root() != pf || !s.HasVerb("INSERT", "edges") || len(s.Stmts) == 0 {
 				continue
 			}
 			for i, col := range s.Stmts[0].Cols {
 				if i < len(s.Args) {
 					switch col {
 					case "up":
-						if p := traceToParam(f, s.Args[i], w.IDs); p != nil {
+						if p := traceToParam(pf, s.Args[i], pids); p != nil {
 							parent = p
 						}
 					case "down":
-						if p := traceToParam(f, s.Args[i], w.IDs); p != nil {
+						if p := traceToParam(pf, s.Args[i], pids); p != nil {
 							node = p
 						}
 					}
@@ -719,8 +738,19 @@ func c03Helper(c *kit.Ctx, m *storeModel, hm *hashModel, r4 *kit.Rule) {
 
 func c03NewEdge(c *kit.Ctx, m *storeModel, hm *hashModel, r5 *kit.Rule) {
 	w := m.writer("edge_points")
-	f := w.F
+	// the folds live where the statements of the transaction are: in the body function
+	// when the writer hands its transaction to one
+	f := w.Body
 	info := f.Info()
+	bodyIDs := w.IDs
+	if w.Body != w.F {
+		bodyIDs = nil
+		for _, p := range f.Params() {
+			if b, ok := p.Type().Underlying().(*types.Basic); ok && b.Kind() == types.String {
+				bodyIDs = append(bodyIDs, p)
+			}
+		}
+	}
 	wl := newWriterLoop(c, m, w)
 	if wl.delta == nil {
 		// the delta variable is found by evaluating the writer once (wsym.go)
@@ -741,7 +771,7 @@ func c03NewEdge(c *kit.Ctx, m *storeModel, hm *hashModel, r5 *kit.Rule) {
 		}
 		for i, col := range s.Stmts[0].Cols {
 			if col == "down" && i < len(s.Args) {
-				if p := traceToParam(f, s.Args[i], w.IDs); p != nil {
+				if p := traceToParam(f, s.Args[i], bodyIDs); p != nil {
 					node = p
 				}
 			}
@@ -780,11 +810,40 @@ func c03NewEdge(c *kit.Ctx, m *storeModel, hm *hashModel, r5 *kit.Rule) {
 			return false
 		}},
 	}
+	// accumulators: the delta itself, or a uint32 local that is XORed into the delta
+	// afterwards (`sub ^= p.CRC()` in the loops, `delta ^= sub` behind them)
+	accum := map[types.Object]bool{wl.delta: true}
+	ast.Inspect(f.Body, func(n ast.Node) bool {
+		x, ok := n.(*ast.AssignStmt)
+		if !ok || len(x.Lhs) != 1 || len(x.Rhs) != 1 || kit.ObjOf(info, x.Lhs[0]) != wl.delta {
+			return true
+		}
+		addOperands := func(e ast.Expr) {
+			ast.Inspect(e, func(y ast.Node) bool {
+				if id, ok := y.(*ast.Ident); ok {
+					if o, ok := kit.ObjOf(info, id).(*types.Var); ok && !o.IsField() && isUint32(o.Type()) {
+						accum[o] = true
+					}
+				}
+				if _, isCall := y.(*ast.CallExpr); isCall {
+					return false
+				}
+				return true
+			})
+		}
+		if x.Tok == token.XOR_ASSIGN {
+			addOperands(x.Rhs[0])
+		} else if be, ok := ast.Unparen(x.Rhs[0]).(*ast.BinaryExpr); ok && be.Op == token.XOR {
+			addOperands(be)
+		}
+		return true
+	})
+	isAccum := func(e ast.Expr) bool { o := kit.ObjOf(info, e); return o != nil && accum[o] }
 	// xorPerRow: the loop body XORs the row's contribution into the delta as a
 	// top-level statement (every row, exactly one statement)
 	xorPerRow := func(fd fold, body *ast.BlockStmt, row map[types.Object]bool) bool {
 		for _, st := range body.List {
-			if x, ok := st.(*ast.AssignStmt); ok && x.Tok == token.XOR_ASSIGN && len(x.Lhs) == 1 && kit.ObjOf(info, x.Lhs[0]) == wl.delta && fd.operand(row, x.Rhs[0]) {
+			if x, ok := st.(*ast.AssignStmt); ok && x.Tok == token.XOR_ASSIGN && len(x.Lhs) == 1 && isAccum(x.Lhs[0]) && fd.operand(row, x.Rhs[0]) {
 				return true
 			}
 		}
@@ -798,7 +857,7 @@ func c03NewEdge(c *kit.Ctx, m *storeModel, hm *hashModel, r5 *kit.Rule) {
 		ast.Inspect(body, func(n ast.Node) bool {
 			if x, ok := n.(*ast.AssignStmt); ok {
 				for _, l := range x.Lhs {
-					if kit.ObjOf(info, l) == wl.delta {
+					if isAccum(l) {
 						assigns++
 						if x.Tok == token.XOR_ASSIGN {
 							xors++
@@ -982,6 +1041,7 @@ func c03Ownership(c *kit.Ctx, m *storeModel, hm *hashModel, r7 *kit.Rule) {
 		allowed[f] = "propagation write-back"
 	}
 	allowed[ew.F] = "new-edge insertion in the edge writer"
+	allowed[ew.Body] = "new-edge insertion in the edge writer"
 	// verifier: the function (or literal) that calls CalcHash
 	for _, f := range c.P.Funcs("store") {
 		for _, call := range f.AllCalls(false) {
